@@ -1074,8 +1074,11 @@ class StoreSim:
 
         def fn(traj):
             i = len(made)
+            row_sp = sp_map
+            if op.get('species_later') and i > 0:
+                row_sp = op['species_later']      # later results use other species than the first one
             donor = G.build_traj(dict(n=len(traj), cs=op['fn_seed'] * 1000 + i, fs=fsets,
-                                      species=sp_map, fid=None, extreme=op.get('extreme', False)))
+                                      species=row_sp, fid=None, extreme=op.get('extreme', False)))
             d = Data()
             snap = {}
             full = G.snapshot(donor)
@@ -1086,9 +1089,27 @@ class StoreSim:
             made.append(snap)
             return d
 
+        later = op.get('species_later') or {}
+        new_species = any(not set(later.get(fld, [])) <= set(sp_map.get(fld, [])) for fld in later) and \
+            len(f.rows) > 1
+        if new_species:
+            # the species dimension of the new file is fixed by the first result; the union over
+            # all species fields of the first result is what it can hold
+            first_union = set(x for lst in sp_map.values() for x in lst)
+            new_species = any(not set(lst) <= first_union for lst in later.values())
         try:
             sess.store.create_associated(self.path(aname), fsets, fn)
         except Exception as e:  # noqa: BLE001
+            if new_species:
+                # lenient reading (as for add): values for species outside the file's fixed species
+                # list may be refused - not silently dropped.  The half-made file is discarded.
+                self.probes['assoc_new_species_refused'] += 1
+                gc.collect()
+                try:
+                    os.remove(self.path(aname))
+                except OSError:
+                    pass
+                return f'refused:{type(e).__name__}'
             self.fail('assoc.refused', f'{type(e).__name__}: {e}', sess, exc=type(e).__name__)
         if len(made) != len(f.rows):
             self.fail('assoc.refused', f'mapping function called {len(made)} times for {len(f.rows)} rows', sess)
